@@ -353,10 +353,31 @@ def dof_session(rng, ctx, variant):
             s.cun(rng.choice(['neg', 'pos']), x); y = _last_c(s)
             s.cread('v', y); s.cread('r', y)
         s.cset_corr(0.5, a, None) if False else None
+    elif variant == 'resultdf':
+        # dof of a complex result before and after result(): circular finite-dof inputs (equal real / imaginary dofs of
+        # every derived number), combined by + - * / and scaled by real / complex numbers, plus non-circular controls; the
+        # declared intermediate is read, used again, and the operand is re-read (the node buffers u and dof per component)
+        circ = rng.random() < 0.7
+        def cin(df):
+            u = rng.choice([0.5, 0.25, 1.0]) if circ else rng.choice([(0.5, 0.25), (1.0, 0.2, 0.2, 2.0), (0.04, -0.01, -0.01, 0.09)])
+            s.ucomplex(zval(), u, df, indep=rng.random() < 0.8); return _last_c(s)
+        a = cin(df1); b = cin(rng.choice([df2, df1, math.inf]))
+        k = rng.random()
+        if k < 0.45: s.cbin(rng.choice(['mul', 'add', 'sub', 'div']), ('c', a), ('c', b))
+        elif k < 0.7: s.cbin('mul', ('n', rng.choice([2.5, 1 + 2j, -0.5j, 3 + 0j])), ('c', a))
+        elif k < 0.85: s.cbin(rng.choice(['div', 'mul']), ('c', a), ('n', rng.choice([2.0, 1 - 1j])))
+        else: s.cun(rng.choice(['exp', 'conjugate', 'sqrt']), a)
+        y = _last_c(s)
+        if rng.random() < 0.5: s.cread('df', y)
+        s.cresult(y, rng.choice([None, 7])); r = _last_c(s)
+        s.cread('df', r); s.cread('df', y); s.read('df', r); s.read('df', r + 1); s.cread('v', r)
+        s.cbin('mul', ('c', r), ('n', rng.choice([2.0, 1 + 1j]))); sweep(_last_c(s))
+        s.cbin('add', ('c', r), ('c', b)); sweep(_last_c(s))
+        s.cresult(r, None); s.cread('df', _last_c(s))
     s.heap_ok = s.check_heap(); s.close()
     return s
 
-DOF_VARIANTS = ['indep', 'ensemble', 'partial', 'failthen', 'realens', 'setcorr', 'getset', 'conj']
+DOF_VARIANTS = ['indep', 'ensemble', 'partial', 'failthen', 'realens', 'setcorr', 'getset', 'conj', 'resultdf']
 
 # ------------------------------------------------------------------ uncertain real (op) plain complex number
 CLITS = [1 + 0j, 0j, 1j, 2 + 1j, complex(0.0, -0.0), complex(1.0, -0.0), -1j, 0.5 - 2j, 3 + 0j, complex(-0.0, 0.0)]
@@ -700,7 +721,7 @@ def build_sessions(rng, profile, tier='quick', n=None):
         ctx[0] += 1; return ctx[0]
     reps = 1 if tier == 'quick' else 6
     want = {'all': ('fun', 'op', 'promo', 'asm', 'ord', 'dof', 'rand'), 'assembled': ('asm', 'ord'), 'order': ('ord',), 'functions': ('fun',), 'operators': ('op',), 'random': ('rand',),
-            'dof': ('dof',), 'promotion': ('promo',), 'value': ('fun', 'op', 'promo', 'asm', 'ord'), 'history': ('dof', 'rand')}[profile]
+            'dof': ('dof',), 'resultdf': ('rdf',), 'promotion': ('promo',), 'value': ('fun', 'op', 'promo', 'asm', 'ord'), 'history': ('dof', 'rand')}[profile]
     for rep in range(reps):
         if 'fun' in want:
             for f in CUNOPS:
@@ -725,6 +746,9 @@ def build_sessions(rng, profile, tier='quick', n=None):
             for v in DOF_VARIANTS:
                 for _ in range(n or (5 if profile == 'all' else 12)):
                     sessions.append(dof_session(rng, nxt(), v))
+    if 'rdf' in want:
+        for _ in range(n or (40 if tier == 'quick' else 1200)):
+            sessions.append(dof_session(rng, nxt(), 'resultdf'))
     if 'rand' in want:
         nrand = n or (45 if tier == 'quick' else 1500)
         for i in range(nrand):
